@@ -130,6 +130,8 @@ def shell_words(argv, line: bytes, lc):
     global _CWD
     if _CWD is None:
         _CWD = tempfile.mkdtemp(prefix="quote-shell-")
+        import atexit, shutil
+        atexit.register(shutil.rmtree, _CWD, True)
     p = subprocess.run(argv + ["-c", HELPER, "_", line], stdin=subprocess.DEVNULL, stdout=subprocess.PIPE,
                        stderr=subprocess.DEVNULL, env={"LC_ALL": lc, "PATH": "/nonexistent"}, timeout=10, cwd=_CWD)
     if p.returncode != 0:
